@@ -57,11 +57,6 @@ func (sms *sqlMetadataStore) listObjects(ctx context.Context, tx *sql.Tx, bucket
 			objectEntities = objectEntities[:maxKeys]
 		}
 	} else {
-		keyCount, err := sms.objectRepository.CountObjectsByBucketNameAndPrefixAndStartAfter(ctx, tx, bucketName, prefix, startAfter)
-		if err != nil {
-			return nil, err
-		}
-		isTruncated = int32(*keyCount) > maxKeys
 		objectEntities, err = sms.objectRepository.FindObjectsByBucketNameAndPrefixAndStartAfterOrderByKeyAsc(ctx, tx, bucketName, prefix, startAfter)
 		if err != nil {
 			return nil, err
@@ -70,12 +65,27 @@ func (sms *sqlMetadataStore) listObjects(ctx context.Context, tx *sql.Tx, bucket
 
 	for _, objectEntity := range objectEntities {
 		if delimiter != "" {
+			// With a delimiter a page holds at most maxKeys entries, keys and
+			// common prefixes counted together in key order; it is truncated
+			// when a further entry exists.
 			commonPrefix := determineCommonPrefix(prefix, objectEntity.Key.String(), delimiter)
 			if commonPrefix != nil {
-				if _, seen := commonPrefixSet[*commonPrefix]; !seen {
-					commonPrefixSet[*commonPrefix] = struct{}{}
-					commonPrefixes = append(commonPrefixes, *commonPrefix)
+				// A startAfter that names a common prefix (the last entry of the
+				// previous page) stands for every key grouped under it.
+				if _, seen := commonPrefixSet[*commonPrefix]; seen || *commonPrefix == startAfter {
+					continue
 				}
+				if int32(len(objects)+len(commonPrefixes)) >= maxKeys {
+					isTruncated = true
+					break
+				}
+				commonPrefixSet[*commonPrefix] = struct{}{}
+				commonPrefixes = append(commonPrefixes, *commonPrefix)
+				continue
+			}
+			if int32(len(objects)+len(commonPrefixes)) >= maxKeys {
+				isTruncated = true
+				break
 			}
 		}
 		if int32(len(objects)) < maxKeys {
